@@ -26,7 +26,8 @@ import numpy as np
 
 import cardillo.solver as cs
 from cardillo.solver.solution import Solution, load_solution, save_solution
-from vk import smt
+from vk import kit as K
+from vk import npshim, smt
 from vk.registry import bounded, contract, static
 
 LEVEL = "proof"
@@ -244,3 +245,95 @@ def b_runs(tier, seed):
             seen.add(f["what"])
             out.append(f)
     return {"cases": cases, "distinct": cases, "failures": out, "bound": f"{len(solvers)} solvers x {len(pairs)} (t1, dt) pairs on a falling point mass; dill round trip"}
+
+
+# --------------------------------------------------------------------------- truncated runs: one row per returned instant
+def _rows_ok(sol, system):
+    """every stored field has exactly one row per returned instant, of the system's width; iteration yields them"""
+    nt = len(sol.t)
+    widths = dict(q=system.nq, u=system.nu, u_dot=system.nu, la_g=system.nla_g, la_gamma=system.nla_gamma, la_c=system.nla_c, la_N=system.nla_N, la_F=system.nla_F,
+                  P_g=system.nla_g, P_gamma=system.nla_gamma, P_N=system.nla_N, P_F=system.nla_F)
+    bad = []
+    for key, val in sol.__dict__.items():
+        if key in ("system", "solver_summary", "t") or val is None:
+            continue
+        a = np.asarray(val)
+        if a.ndim == 0:
+            continue
+        if a.shape[0] != nt or (key in widths and a.ndim > 1 and a.shape[1] != widths[key]):
+            bad.append(f"{key}: shape {a.shape} for {nt} instants")
+    recs = list(sol)
+    if len(recs) != nt:
+        bad.append(f"iteration yields {len(recs)} records for {nt} instants")
+    return bad
+
+
+def _truncated(name):
+    """the real solver on a real small system; the run is cut short (stepping solvers: the 4th nonlinear solve reports
+    non-convergence; scipy wrappers: the external integrator stops after 3 of the requested instants)"""
+
+    def c(k):
+        if not k.sym:
+            raise K.Reject("decided by executing the real solver with an injected stop")
+        import contextlib, io
+
+        import cardillo.math.fsolve as fs_mod
+        from contracts.C21 import _Pbar, _small_real_system
+        from contracts.sysstub import patched
+
+        module = {"BackwardEuler": cs.backward_euler, "Rattle": cs.rattle, "Moreau": cs.moreau, "ScipyIVP": cs.scipy_ivp, "ScipyDAE": cs.scipy_dae}[name]
+        cls = getattr(module, name)
+        k.covers(cls.solve)
+        sysm = _small_real_system("contact" if name in ("BackwardEuler", "Rattle", "Moreau") else "free")
+        names = {"tqdm": _Pbar, "print": lambda *a, **kw: None}
+        if name in ("ScipyIVP", "ScipyDAE"):
+            ext = "solve_ivp" if name == "ScipyIVP" else "solve_dae"
+
+            def external(fun, t_span, y0, *a, t_eval=None, **kw):
+                class Res:
+                    pass
+
+                r = Res()
+                r.t = np.asarray(t_eval)[:3]
+                r.y = np.tile(np.asarray(y0, dtype=float)[:, None], (1, 3))
+                yp0 = a[0] if a and name == "ScipyDAE" else np.zeros_like(y0)
+                r.yp = np.tile(np.asarray(yp0, dtype=float)[:, None], (1, 3))
+                r.status, r.success, r.message = -1, False, "Required step size is less than spacing between numbers."
+                return r
+
+            names[ext] = external
+        else:
+            real, count = fs_mod.fsolve, [0]
+
+            def inj(*a, **kw):
+                r = real(*a, **kw)
+                count[0] += 1
+                if count[0] == 4:
+                    r.success = False
+                return r
+
+            if hasattr(module, "fsolve"):
+                names["fsolve"] = inj
+        opts = cs.SolverOptions()
+        if name == "Moreau":
+            opts.fixed_point_max_iter, opts.fixed_point_atol, opts.fixed_point_rtol = 1, 1e-300, 1e-300  # the first closed contact cannot converge
+        with npshim.active(False), patched(module, **names), warnings.catch_warnings(), contextlib.redirect_stdout(io.StringIO()), contextlib.redirect_stderr(io.StringIO()):
+            warnings.simplefilter("ignore")
+            try:
+                sol, outcome = (cls(sysm, 1.0, 0.1, options=opts) if name in ("BackwardEuler", "Rattle", "Moreau") else cls(sysm, 1.0, 0.1)).solve(), "return"
+            except (RuntimeError, ValueError, AssertionError) as e:
+                sol, outcome = e, "raise"
+        if outcome == "raise":
+            k.prove(f"{name}: a run that cannot continue raises (nothing is returned)", True)
+            return
+        full = 11
+        k.prove(f"{name}: the injected stop truncates the run (returned {len(sol.t)} of {full} instants)", len(sol.t) < full)
+        bad = _rows_ok(sol, sysm)
+        k.prove(f"{name}: truncated run - every stored field has one row per returned instant {bad}", not bad)
+        k.prove(f"{name}: truncated run - the returned instants are the leading grid points", np.allclose(np.asarray(sol.t), sysm.t0 + 0.1 * np.arange(len(sol.t))))
+
+    return c
+
+
+for _name in ("BackwardEuler", "Rattle", "Moreau", "ScipyIVP", "ScipyDAE"):
+    contract("C20", f"truncated-run/{_name}", samples=0, replayable=False, timeout=30)(_truncated(_name))
